@@ -7,10 +7,13 @@ patch="$1"; shift
 props="$*"
 [ -n "$props" ] || props="C01 C02 C03 C04 C05 C06 C07 C08 C09 C10 C11 C12 C13 C14 C15 C16"
 git -C /repo diff --quiet || { echo "/repo working tree not clean"; exit 2; }
+rm -rf /verif/.build/evidence_saved; cp -a /verif/evidence /verif/.build/evidence_saved
 git -C /repo apply "$patch" || { echo "patch does not apply"; exit 2; }
 for p in $props; do
   out=$(cd /verif && ./check.sh "$p" quick 2>&1); rc=$?
   echo "$p rc=$rc $(echo "$out" | grep -E '^VIOLATION' | head -1)"
 done
 git -C /repo checkout -- .
+# evidence written while the patch was applied describes the patched tree: put the previous files back
+rm -rf /verif/evidence; mv /verif/.build/evidence_saved /verif/evidence
 (cd /verif/harness && cargo +nightly build --release --offline >/dev/null 2>&1)
